@@ -116,6 +116,9 @@ pub enum Stop {
     Infeasible,
     /// exploration budget exhausted / arithmetic not representable
     Budget(String),
+    /// a harness-installed fence (`set_fence`) fired at a decision: the library call is cut here on purpose
+    /// (used to observe the state after ONE pass through a long loop); `catch` hands it to the harness
+    Fence,
 }
 
 struct AbortPayload(Stop);
@@ -243,6 +246,8 @@ pub struct Engine {
     extra_axioms: Vec<B>,
     last_panic: Option<(String, String)>,
     tolerant: bool,
+    /// concrete replay: accumulated rounding-error bound of each inexact value seen (keyed by its bits, max over producers)
+    ferr: HashMap<u64, f64>,
     var_names: BTreeMap<u32, String>,
 }
 
@@ -301,6 +306,7 @@ impl Engine {
             extra_axioms: Vec::new(),
             last_panic: None,
             tolerant: false,
+            ferr: HashMap::new(),
             var_names: BTreeMap::new(),
         }
     }
@@ -377,6 +383,21 @@ impl Engine {
         match self.cval(s) { Some(CVal::R(r)) => r == Rat::ONE, _ => false }
     }
 
+    fn err_of(&self, c: CVal) -> f64 { match c { CVal::F(x) => *self.ferr.get(&x.to_bits()).unwrap_or(&0.0), CVal::R(_) => 0.0 } }
+
+    /// Running forward error bound (first order, unit roundoff 2^-53) of an inexact concrete result; used only to
+    /// judge obligations on floats "up to rounding" - never for library decisions.
+    fn note_err(&mut self, v: f64, e: f64) {
+        if self.concrete.is_none() || !v.is_finite() { return; }
+        // Only the harness's OWN arithmetic (the evaluation of an obligation) is forgiven its accumulated rounding.  A value
+        // computed inside a library call (under `catch`) is data to be judged: it is trusted to a few ulps and no more, so a
+        // result ruined by cancellation inside the library still fails the obligation it is tested against.
+        let in_library = IN_CATCH.with(|c| *c.borrow() > 0);
+        let e = if in_library { 4.8e-16 * v.abs() } else if e.is_finite() { e } else { f64::INFINITY };
+        let slot = self.ferr.entry(v.to_bits()).or_insert(0.0);
+        if e > *slot { *slot = e; }
+    }
+
     fn fold2(&self, op: u8, a: CVal, b: CVal) -> Option<CVal> {
         match (a, b) {
             (CVal::R(x), CVal::R(y)) => {
@@ -414,6 +435,17 @@ impl Engine {
         if self.is_nan_const(a) || self.is_nan_const(b) { return Sym::lit(f64::NAN); }
         if let (Some(x), Some(y)) = (self.cval(a), self.cval(b)) {
             if let Some(c) = self.fold2(op, x, y) {
+                if let (CVal::F(v), true) = (c, self.concrete.is_some()) {
+                    let (fa, fb, ea, eb) = (cv_f(x).abs(), cv_f(y).abs(), self.err_of(x), self.err_of(y));
+                    let u = 1.2e-16 * v.abs();
+                    let e = match op {
+                        b'+' | b'-' => ea + eb + u,
+                        b'*' => fa * eb + fb * ea + ea * eb + u,
+                        b'/' => if fb > eb { (ea + v.abs() * eb) / (fb - eb) + u } else { f64::INFINITY },
+                        _ => ea.max(eb),
+                    };
+                    self.note_err(v, e);
+                }
                 return self.from_cval(c);
             }
             if self.concrete.is_some() {
@@ -488,7 +520,7 @@ impl Engine {
         if let Some(c) = self.cval(a) {
             match (what, c) {
                 ("abs", CVal::R(r)) => { if let Some(v) = r.abs() { return self.from_cval(CVal::R(v)); } }
-                ("abs", CVal::F(x)) => return self.from_cval(CVal::F(x.abs())),
+                ("abs", CVal::F(x)) => { let e = self.err_of(c); self.note_err(x.abs(), e); return self.from_cval(CVal::F(x.abs())); }
                 ("sqrt", CVal::R(r)) => {
                     // exact only for perfect squares
                     if r.n >= 0 {
@@ -498,7 +530,9 @@ impl Engine {
                         }
                     }
                     if self.concrete.is_some() {
-                        return self.from_cval(CVal::F(r.to_f64().sqrt()));
+                        let v = r.to_f64().sqrt();
+                        self.note_err(v, 2.4e-16 * v.abs());
+                        return self.from_cval(CVal::F(v));
                     }
                 }
                 (_, c) if self.cfg.float || self.concrete.is_some() => {
@@ -509,6 +543,16 @@ impl Engine {
                         "asin" => x.asin(), "acos" => x.acos(), "atan" => x.atan(),
                         _ => f64::NAN,
                     };
+                    let ea = self.err_of(c);
+                    let e = match what {
+                        "sqrt" => if x > 0.0 && v > 0.0 { ea / (2.0 * v) } else { ea.sqrt() },
+                        "ln" => if x.abs() > ea { ea / (x.abs() - ea) } else { f64::INFINITY },
+                        "exp" | "sinh" | "cosh" => (v.abs() + 1.0) * ea,
+                        "tan" => (1.0 + v * v) * ea,
+                        "asin" | "acos" => if x.abs() < 1.0 { ea / (1.0 - x * x).sqrt() } else { f64::INFINITY },
+                        _ => ea,
+                    } + 4.8e-16 * v.abs();
+                    self.note_err(v, e);
                     return self.from_cval(CVal::F(v));
                 }
                 _ => {}
@@ -527,8 +571,14 @@ impl Engine {
     fn fun2(&mut self, what: &'static str, a: Sym, b: Sym) -> Sym {
         if let (Some(x), Some(y)) = (self.cval(a), self.cval(b)) {
             if self.cfg.float || self.concrete.is_some() {
+                let (ea, eb) = (self.err_of(x), self.err_of(y));
                 let (x, y) = (cv_f(x), cv_f(y));
                 let v = match what { "atan2" => x.atan2(y), "pow" => x.powf(y), _ => f64::NAN };
+                let e = match what {
+                    "atan2" => { let h = x.hypot(y); if h > ea + eb { (ea + eb) / (h - ea - eb) } else { f64::INFINITY } }
+                    _ => if x.abs() > ea { v.abs() * (y.abs() * ea / (x.abs() - ea) + x.abs().ln().abs() * eb) } else { f64::INFINITY },
+                } + 4.8e-16 * v.abs();
+                self.note_err(v, e);
                 return self.from_cval(CVal::F(v));
             }
             if what == "pow" {
@@ -569,14 +619,14 @@ impl Engine {
             B::Lt(x, y) => cmp_c(self.cval_id(*x)?, self.cval_id(*y)?)? == std::cmp::Ordering::Less,
             B::Le(x, y) => {
                 let (a, b) = (self.cval_id(*x)?, self.cval_id(*y)?);
-                if self.tolerant { if let (CVal::F(_), _) | (_, CVal::F(_)) = (a, b) { let (u, v) = (cv_f(a), cv_f(b)); return Some(u <= v + 1.0e-9 * (1.0 + u.abs().max(v.abs()))); } }
+                if self.tolerant { if let (CVal::F(_), _) | (_, CVal::F(_)) = (a, b) { let (u, v) = (cv_f(a), cv_f(b)); return Some(u <= v + 1.0e-9 * (1.0 + u.abs().max(v.abs())) + 1.0e3 * (self.err_of(a) + self.err_of(b))); } }
                 cmp_c(a, b)? != std::cmp::Ordering::Greater
             }
             B::Eq(x, y) => {
                 if x == y { return Some(true); }
                 let (a, b) = (self.cval_id(*x)?, self.cval_id(*y)?);
                 // an obligation evaluated on inexact (float) values is judged up to rounding, never a library decision
-                if self.tolerant { if let (CVal::F(_), _) | (_, CVal::F(_)) = (a, b) { let (u, v) = (cv_f(a), cv_f(b)); return Some((u - v).abs() <= 1.0e-9 * (1.0 + u.abs().max(v.abs()))); } }
+                if self.tolerant { if let (CVal::F(_), _) | (_, CVal::F(_)) = (a, b) { let (u, v) = (cv_f(a), cv_f(b)); return Some((u - v).abs() <= 1.0e-9 * (1.0 + u.abs().max(v.abs())) + 1.0e3 * (self.err_of(a) + self.err_of(b))); } }
                 cmp_c(a, b)? == std::cmp::Ordering::Equal
             }
             B::Not(x) => !self.eval_b(x)?,
@@ -1482,7 +1532,14 @@ pub fn decide(atom: B) -> bool { decide_at(atom, None) }
 /// other side infeasible OVER THE REALS (the code relies on an exact cancellation there).
 pub fn implied_equalities() -> Vec<(String, B, Vec<B>)> { with(|e| e.path_implied.clone()) }
 
+thread_local! { static FENCE: std::cell::RefCell<Option<Box<dyn Fn() -> bool>>> = std::cell::RefCell::new(None); }
+
+/// Install (or clear) a fence: a predicate over harness-owned state that is evaluated at EVERY decision of the
+/// library code (constant or not, symbolic or concrete mode alike); when it holds the call unwinds with `Stop::Fence`.
+pub fn set_fence(f: Option<Box<dyn Fn() -> bool>>) { FENCE.with(|c| *c.borrow_mut() = f); }
+
 pub fn decide_at(atom: B, site: Option<String>) -> bool {
+    if FENCE.with(|c| c.borrow().as_ref().map_or(false, |g| g())) { abort(Stop::Fence); }
     // constant?
     let (konst, forced) = with(|e| {
         let k = e.eval_b(&atom);
@@ -1818,7 +1875,11 @@ pub fn stub_complex1(name: &str, re: Sym, im: Sym) -> Option<(Sym, Sym)> {
             assume(eq(u * u - v * v, re));
             assume(eq(Sym::lit(2.0) * u * v, im));
             assume(le(z, u));
-            assume(B::implies(eq(u, z), le(z, v)));
+            // On the cut (negative real argument) the f64 routine returns +i sqrt|x| or -i sqrt|x| according to the SIGN OF THE
+            // ZERO imaginary part of its argument, which rounding decides and real arithmetic cannot see.  A caller that is to be
+            // correct in f64 must not depend on it: with "csqrt_signed_zero" in force the stub leaves that sign open.
+            let open_cut = with(|e| e.cfg.stubs.iter().any(|s| s == "csqrt_signed_zero"));
+            if !open_cut { assume(B::implies(eq(u, z), le(z, v))); }
         }
         "ccbrt" => {
             // some cube root: w^3 = z
@@ -2041,7 +2102,9 @@ pub fn explore(cfg: Config, body: &mut dyn FnMut()) -> Report {
             e.stub_log.clear();
             e.poly_stub_log.clear();
         });
+        set_fence(None);
         let r = panic::catch_unwind(AssertUnwindSafe(|| body()));
+        set_fence(None);
         match r {
             Ok(()) => {
                 let want = with(|e| e.samples.len() < e.cfg.keep_samples);
